@@ -294,6 +294,38 @@ func scnFaults(ctx *check.JobCtx) {
 				m.Faults = append(m.Faults, f) // duplicate inside one message
 				content += "+dup"
 			}
+			if r.Intn(3) == 0 && ok && len(o.Shards) > 0 {
+				// a batch: a genuine entry about the accused next to entries that are not (other provider's shard,
+				// another order's shard, a shard id that does not exist), in either order
+				var own *saotypes.Fault
+				for _, sid := range o.Shards {
+					if sh, okS := w.Cur.Shards[sid]; okS && sh.Sp == accused {
+						own = &saotypes.Fault{DataId: t.data, OrderId: t.order, ShardId: sid, CommitId: "other-commit", Provider: accused, Reporter: rep.a.Addr.String()}
+					}
+				}
+				var bad []*saotypes.Fault
+				for _, sid := range o.Shards {
+					if sh, okS := w.Cur.Shards[sid]; okS && sh.Sp != accused {
+						bad = append(bad, &saotypes.Fault{DataId: t.data, OrderId: t.order, ShardId: sid, CommitId: "other-commit", Provider: accused, Reporter: rep.a.Addr.String()})
+					}
+				}
+				bad = append(bad, &saotypes.Fault{DataId: t.data, OrderId: t.order, ShardId: 100000 + uint64(i), CommitId: "other-commit", Provider: accused, Reporter: rep.a.Addr.String()})
+				if len(targets) > 1 {
+					t2 := targets[(r.Intn(len(targets)-1)+1)%len(targets)]
+					if o2, ok2 := w.Cur.Orders[t2.order]; ok2 && len(o2.Shards) > 0 && t2.order != t.order {
+						bad = append(bad, &saotypes.Fault{DataId: t.data, OrderId: t.order, ShardId: o2.Shards[0], CommitId: "other-commit", Provider: accused, Reporter: rep.a.Addr.String()})
+					}
+				}
+				if own != nil {
+					if r.Intn(2) == 0 {
+						m.Faults = append([]*saotypes.Fault{own}, bad...)
+						content = "batch/genuine-first"
+					} else {
+						m.Faults = append(bad, own)
+						content = "batch/genuine-last"
+					}
+				}
+			}
 			w.Deliver("report-faults", rep.a, map[string]interface{}{"c19.case": rep.name + "/" + content}, m)
 		case 3:
 			// recovery declared by the accused provider itself, or by somebody else
